@@ -1,6 +1,7 @@
-"""C18 tables, obtained by *running* today's `to_dict` / `from_dict` of every detector type:
+"""C18 tables, obtained by *running* today's code in its own interpreter (`extract.run_in_repo`), through public
+names only:
 
-  containers  : the data-container attributes a detector instance of that type has
+  containers  : the data containers a detector of that type exposes (public attributes among the known bucket names)
   written     : keys of `to_dict()["data"]` on a fully populated detector
   read        : keys whose value `from_dict` fetches from the "data" mapping (a recording mapping is passed)
   ctorParams  : constructor parameters of the type's geometry / environment / characteristics classes
@@ -8,11 +9,7 @@
   readProps   : keys `from_dict` of the detector fetches from "properties"
 
 If anything cannot be built or run, the table of that type is empty (the obligations over it fail)."""
-import inspect
-import os
-import sys
-
-from extract import REPO, llist, lpair, lstr
+from extract import llist, lpair, lstr, run_in_repo
 
 FALLBACK = ("def detTypes : List String := []\n"
             "def containers : List (String × List String) := []\n"
@@ -24,10 +21,19 @@ FALLBACK = ("def detTypes : List String := []\n"
 
 TYPES = ["CCD", "CMOS", "MKID", "APD"]
 
+PROBE = r"""
+import inspect, json, warnings
+warnings.filterwarnings("ignore")
+import numpy as np
+import xarray as xr
+import pyxel.detectors as D
+
+TYPES = ["CCD", "CMOS", "MKID", "APD"]
+BUCKETS = ["scene", "photon", "charge", "pixel", "signal", "image", "phase", "data"]
+
 
 class Rec(dict):
-    """mapping that records the keys whose values are fetched"""
-
+    # mapping that records the keys whose values are fetched
     def __init__(self, *a, **k):
         super().__init__(*a, **k)
         self.fetched = []
@@ -41,21 +47,27 @@ class Rec(dict):
         return super().get(key, default)
 
 
-def _full_detector(kind):
-    import numpy as np
-    import xarray as xr
+def make(kind):
+    geo = dict(row=3, col=4, total_thickness=40.0, pixel_vert_size=10.0, pixel_horz_size=10.0, pixel_scale=0.5)
+    env = D.Environment(temperature=150.0, wavelength=600.0)
+    if kind == "APD":
+        ch = D.APDCharacteristics(roic_gain=0.8, quantum_efficiency=0.9, full_well_capacity=100000, adc_bit_resolution=16,
+                                  adc_voltage_range=(0.0, 10.0), avalanche_gain=2.0, pixel_reset_voltage=5.0)
+        return D.APD(geometry=D.APDGeometry(**geo), environment=env, characteristics=ch)
+    ch = D.Characteristics(quantum_efficiency=0.9, charge_to_volt_conversion=1e-6, pre_amplification=100.0,
+                           full_well_capacity=100000, adc_bit_resolution=16, adc_voltage_range=(0.0, 10.0))
+    cls, gcls = {"CCD": (D.CCD, D.CCDGeometry), "CMOS": (D.CMOS, D.CMOSGeometry), "MKID": (D.MKID, D.MKIDGeometry)}[kind]
+    return cls(geometry=gcls(**geo), environment=env, characteristics=ch)
 
-    sys.path.insert(0, os.path.dirname(os.path.dirname(os.path.abspath(__file__))))
-    import pyx
 
-    det = pyx.make_detector(kind, 3, 4, environment={"temperature": 150.0, "wavelength": 600.0}, geometry={"pixel_scale": 0.5})
+def fill(det):
     base = np.arange(12, dtype=float).reshape(3, 4)
     det.photon.array = base + 1
     det.pixel.array = base + 2
     det.signal.array = base + 3
     det.image.array = (base + 4).astype("uint16")
     det.charge.add_charge_array(base + 5)
-    if hasattr(det, "phase"):
+    if hasattr(type(det), "phase"):
         det.phase.array = base + 6
     det.data["/gen/x"] = xr.DataArray(np.arange(3.0), dims="k")
     src = xr.Dataset({"x": xr.DataArray([1.0, 2.0], dims="ref"), "y": xr.DataArray([1.0, 2.0], dims="ref"),
@@ -63,70 +75,52 @@ def _full_detector(kind):
                       "flux": xr.DataArray([[0.1, 0.2], [0.3, 0.4]], dims=["ref", "wavelength"])},
                      coords={"ref": [0, 1], "wavelength": [500.0, 600.0]})
     det.scene.add_source(src)
-    return det
+
+
+out = {"containers": [], "written": [], "read": [], "ctorParams": [], "writtenProps": [], "readProps": []}
+for kind in TYPES:
+    try:
+        det = make(kind)
+        names = sorted(b for b in BUCKETS if hasattr(type(det), b))
+        fill(det)
+        dct = det.to_dict()
+        written = sorted(dct["data"].keys())
+        # what the file backends do between to_dict and from_dict: data-tree Datasets travel as dicts
+        data_part = dict(dct["data"])
+        if data_part.get("data") is not None:
+            data_part["data"] = {k: (v.to_dict() if hasattr(v, "to_dict") else v) for k, v in data_part["data"].items()}
+        rec_data, rec_props = Rec(data_part), Rec(dct["properties"])
+        top = dict(dct)
+        top["data"], top["properties"] = rec_data, rec_props
+        type(det).from_dict(top)
+        out["containers"].append([kind, names])
+        out["written"].append([kind, written])
+        out["read"].append([kind, sorted(set(rec_data.fetched))])
+        out["readProps"].append([kind, sorted(set(rec_props.fetched))])
+        for part in ("geometry", "environment", "characteristics"):
+            obj = getattr(det, part)
+            params = [p for p in inspect.signature(type(obj).__init__).parameters if p != "self"]
+            out["ctorParams"].append([f"{kind}.{part}", sorted(params)])
+            out["writtenProps"].append([f"{kind}.{part}", sorted(obj.to_dict().keys())])
+    except Exception as e:
+        out["containers"].append([kind, []])
+        out["written"].append([kind, ["<probe failed: %s>" % type(e).__name__]])
+        out["read"].append([kind, []])
+print(json.dumps(out))
+"""
 
 
 def gen() -> str:
-    for p in (str(REPO),):
-        if p in sys.path:
-            sys.path.remove(p)
-        sys.path.insert(0, p)
-    import warnings
-
-    warnings.filterwarnings("ignore")
-    cont, wr, rd, cp, wp, rp = [], [], [], [], [], []
-    ok_types = []
-    for kind in TYPES:
-        try:
-            import xarray as xr
-
-            from pyxel.data_structure import Charge, Image, Photon, Pixel, Scene, Signal
-
-            klasses = [Charge, Image, Photon, Pixel, Scene, Signal]
-            try:
-                from pyxel.data_structure import Phase
-
-                klasses.append(Phase)
-            except Exception:
-                pass
-            det = _full_detector(kind)
-            names = sorted(k.lstrip("_") for k, v in vars(det).items()
-                           if isinstance(v, tuple(klasses)) or (k == "_data" and isinstance(v, xr.DataTree)))
-            dct = det.to_dict()
-            written = sorted(dct["data"].keys())
-            # what the file backends do between to_dict and from_dict: data-tree Datasets travel as dicts
-            data_part = dict(dct["data"])
-            if data_part.get("data") is not None:
-                data_part["data"] = {k: v.to_dict() for k, v in data_part["data"].items()}
-            rec_data = Rec(data_part)
-            rec_props = Rec(dct["properties"])
-            top = dict(dct)
-            top["data"] = rec_data
-            top["properties"] = rec_props
-            type(det).from_dict(top)
-            read = sorted(set(rec_data.fetched))
-            readp = sorted(set(rec_props.fetched))
-            cont.append((kind, names))
-            wr.append((kind, written))
-            rd.append((kind, read))
-            rp.append((kind, readp))
-            for part in ("geometry", "environment", "characteristics"):
-                obj = getattr(det, part)
-                params = [p for p in inspect.signature(type(obj).__init__).parameters if p != "self"]
-                cp.append((f"{kind}.{part}", sorted(params)))
-                wp.append((f"{kind}.{part}", sorted(obj.to_dict().keys())))
-            ok_types.append(kind)
-        except Exception as e:  # noqa: BLE001
-            cont.append((kind, []))
-            wr.append((kind, ["<extractor failed: %s>" % type(e).__name__]))
-            rd.append((kind, []))
-    tab = lambda t: llist(t, lpair(lstr, llist))  # noqa: E731
+    res = run_in_repo(PROBE, timeout=300)
+    if res is None:
+        return "-- probe did not run\n" + FALLBACK
+    tab = lambda t: llist([tuple(x) for x in t], lpair(lstr, llist))  # noqa: E731
     return (
         f"def detTypes : List String := {llist(TYPES)}\n"
-        f"def containers : List (String × List String) := {tab(cont)}\n"
-        f"def written : List (String × List String) := {tab(wr)}\n"
-        f"def read : List (String × List String) := {tab(rd)}\n"
-        f"def ctorParams : List (String × List String) := {tab(cp)}\n"
-        f"def writtenProps : List (String × List String) := {tab(wp)}\n"
-        f"def readProps : List (String × List String) := {tab(rp)}"
+        f"def containers : List (String × List String) := {tab(res['containers'])}\n"
+        f"def written : List (String × List String) := {tab(res['written'])}\n"
+        f"def read : List (String × List String) := {tab(res['read'])}\n"
+        f"def ctorParams : List (String × List String) := {tab(res['ctorParams'])}\n"
+        f"def writtenProps : List (String × List String) := {tab(res['writtenProps'])}\n"
+        f"def readProps : List (String × List String) := {tab(res['readProps'])}"
     )
